@@ -12,7 +12,7 @@ PROPS = {
         codec=[('valid', 0, 0)],
         sess=[('sess_c19', 300, 4000)],
         events='wrf', state=NO_TIMERS,
-        monitors=[M.mon_c19, M.mon_c19_wire],
+        monitors=[M.mon_c19, M.mon_c19_wire, M.mon_c19_handle],
         title='invalid requests refused locally without trace; QoS capped when asked',
         claim='Proved in Coq for all inputs: the validity table equals MQTT 5 table 2-4 restricted to client packets '
               '(27 kinds x 5 contexts by exhaustive case analysis), value legality for every value, a refused request '
@@ -84,7 +84,7 @@ PROPS['C11'] = dict(
 PROPS['C14'] = dict(
     sess=[('sess_c14', 400, 5000), ('py_edges', 300, 4000)],
     events='wr', state=['mps', 'ret', 'rel', 'ctl', 'conn', 'live', 'rb', 'pl'],
-    monitors=[M.mon_c14],
+    monitors=[M.mon_c14, M.mon_panic],
     title='Maximum Packet Size is honoured in both directions',
     claim='Proved in Coq, one lemma per transmit site with the exact boundary in the statement: the outbound engine only '
           'writes packets within the limit of the current CONNACK (control packets, PUBREL, retained packets re-checked at send '
@@ -139,7 +139,7 @@ PROPS['C05'] = dict(
 PROPS['C18'] = dict(
     sess=[('sess_c18', 400, 5000)],
     events='', state=['h', 'gen', 'ret', 'rel', 'conn'],
-    monitors=[M.mon_c18, M.mon_c07],
+    monitors=[M.mon_c18, M.mon_c18_ref, M.mon_c07],
     title='operation handles tell the truth about completion and invalidation',
     claim='Proved in Coq: a handle is invalidated exactly when the generation differs, and the generation changes exactly when '
           'a fresh broker session is established; it is pending exactly while its identifier is in flight and complete '
@@ -153,9 +153,9 @@ PROPS['C18'] = dict(
 PROPS['C08'] = dict(
     codec=[('decode_exh', 0, 0), ('decode_hdr', 0, 0), ('decode_utf8', 0, 0), ('decode_gen', 3000, 40000),
            ('decode_props', 2000, 30000), ('reader', 2000, 30000)],
-    sess=[('sess_c08', 300, 4000), ('py_edges', 200, 3000)],
+    sess=[('sess_c08', 300, 4000), ('py_edges', 200, 3000), ('py_c08', 400, 6000)],
     events='wrf', state=['ret', 'rel', 'ctl', 'srv', 'live', 'conn', 'rb', 'pl', 'quota'],
-    monitors=[M.mon_panic, M.mon_c08, M.mon_c11], codec_monitors=[M.mon_decode],
+    monitors=[M.mon_panic, M.mon_c08, M.mon_c08_valid, M.mon_c11], codec_monitors=[M.mon_decode],
     title='any inbound bytes: valid packets accepted verbatim, malformed rejected, no panic',
     claim='Proved in Coq: variable byte integers round-trip and the reader accepts exactly the canonical encodings (<= 4 bytes, '
           '<= 268435455); the packet reader\'s lax length probe agrees with the canonical reader; the first byte is accepted '
@@ -174,7 +174,7 @@ PROPS['C09'] = dict(
     codec=[('encode', 500, 8000), ('valid', 0, 0)],
     sess=[('sess_c05', 200, 3000), ('sess_c19', 100, 2000)],
     events='w', state=['cid', 'ka', 'conn'],
-    monitors=[M.mon_c09],
+    monitors=[M.mon_c09], codec_monitors=[M.mon_encode],
     title='what the broker decodes is exactly what the application asked to send',
     claim='Proved in Coq: Property::size equals the bytes emitted for all 27 kinds and all values, hence the declared block '
           'length is exact; the serializer writes the concatenation of all fields or fails (nothing truncated), a successful '
@@ -244,9 +244,9 @@ PROPS['C01'] = dict(
 
 PROPS['C04'] = dict(
     codec=[('decode_gen', 1500, 20000)],
-    sess=[('py_c04', 400, 6000), ('sess_c04', 300, 5000), ('sess_base', 100, 2000), ('py_edges', 200, 3000)],
+    sess=[('py_c04', 400, 6000), ('sess_c04', 300, 5000), ('sess_base', 100, 2000), ('py_edges', 200, 3000), ('py_c08', 200, 3000)],
     events='wrf', state=['srv', 'ctl', 'conn', 'live', 'sp', 'rb', 'pl'],
-    monitors=[M.mon_c04, M.mon_panic],
+    monitors=[M.mon_c04, M.mon_c08_valid, M.mon_panic],
     codec_monitors=[M.mon_decode],
     title='inbound publishes delivered faithfully, acknowledged in order, QoS 2 only once',
     claim='Proved in Coq: a PUBLISH decodes to exactly the fields the broker encoded (topic, identifier, QoS, retain, DUP, all '
